@@ -4,6 +4,9 @@
 -/
 import Edn.Model.Number
 import Edn.Proofs.Bytes
+import Edn.Proofs.NumberAuxSwar
+import Edn.Proofs.NumberAuxInt
+import Edn.Proofs.NumberAuxGcd
 
 namespace Edn.Proofs
 open Edn.Model
@@ -19,13 +22,13 @@ def digitsValR (radix : Nat) (ds : Bytes) : Nat :=
 
 /-- the two-mask test holds exactly when all eight bytes are ASCII digits -/
 theorem eightDigitsFast_iff (b : Bytes) (h : b.length = 8) :
-    eightDigitsFast (load64le b) = b.all is09 := by
-  sorry
+    eightDigitsFast (load64le b) = b.all is09 :=
+  NumSwar.eightDigitsFast_iff' b h
 
 /-- the multiply-shift cascade computes the decimal value of the eight digits -/
 theorem parseEightDigits_eq (b : Bytes) (h : b.length = 8) (hd : b.all is09 = true) :
-    (parseEightDigits (load64le b)).toNat = digitsVal b := by
-  sorry
+    (parseEightDigits (load64le b)).toNat = digitsVal b :=
+  NumSwar.parseEightDigits_eq' b h hd
 
 /-! ## parse_int64_from_buffer -/
 
@@ -35,8 +38,8 @@ def inRange (neg : Bool) (v : Nat) : Option Int :=
   else (if v ≤ 9223372036854775807 then some (v : Int) else none)
 
 /-- the decimal digit test of the scalar loops is the digit table restricted to radix 10 -/
-theorem digitValue_ten (c : UInt8) : digitValue c 10 = if is09 c then some (dval c) else none := by
-  sorry
+theorem digitValue_ten (c : UInt8) : digitValue c 10 = if is09 c then some (dval c) else none :=
+  NumInt.digitValue_ten' c
 
 /-- For every digit string of every length, every radix 2..36 and either sign (underscores
     allowed between digits with the experimental flag): the result is `some n` exactly when
@@ -44,14 +47,14 @@ theorem digitValue_ten (c : UInt8) : digitValue c 10 = if is09 c then some (dval
 theorem parseInt64_spec (cfg : Cfg) (radix : Nat) (hr : 2 ≤ radix ∧ radix ≤ 36) (ds : Bytes) (neg : Bool)
     (hvalid : ∀ c ∈ ds, (digitValue c radix).isSome = true ∨ (cfg.exp = true ∧ c = 0x5F))
     (hne : ∃ c ∈ ds, (digitValue c radix).isSome = true) :
-    parseInt64 cfg ds radix neg = inRange neg (digitsValR radix (ds.filter (· != 0x5F))) := by
-  sorry
+    parseInt64 cfg ds radix neg = inRange neg (digitsValR radix (ds.filter (· != 0x5F))) :=
+  NumInt.parseInt64_spec' cfg radix hr ds neg hvalid hne
 
 /-! ## ratio_gcd -/
 
 /-- binary gcd on the magnitudes of two int64 operands -/
 theorem ratioGcd_eq (a b : Int) (ha : a.natAbs ≤ 9223372036854775808) (hb : b.natAbs ≤ 9223372036854775808) :
-    ratioGcd a b = Nat.gcd a.natAbs b.natAbs := by
-  sorry
+    ratioGcd a b = Nat.gcd a.natAbs b.natAbs :=
+  NumGcd.ratioGcd_eq' a b ha hb
 
 end Edn.Proofs
